@@ -86,6 +86,10 @@ def build_class(it, st: ast.ClassDef, fr):
                 cv.members[n] = ev
                 cv.attrs[n] = ev
 
+    if any(b.name == "NamedTuple" and b.builtin for b in cv.bases):
+        # typing.NamedTuple: positional constructor over the annotated fields, immutable
+        cv.dataclass = {"frozen": True, "order": False, "eq": True, "init": True}
+        cv.namedtuple = True
     # decorators
     for d in st.decorator_list:
         name = _dotted(d.func if isinstance(d, ast.Call) else d)
